@@ -7,8 +7,17 @@
 //	new <n>            create n routers                     => ok <hash0> ... <hash(n-1)>
 //	link <a> <b>       the link a-b comes up (topology only) => ok | skip
 //	unlink <a> <b>     the link a-b goes down (topology only)=> ok | skip
-//	fetch <u> <w>      u fetches w's current advertisement and runs ribUpdate
-//	                                                         => <dump of u> | skip
+//	fetch <u> <w>      a Sync Interest of w announces w's current advertisement number to u (real
+//	                   advertSyncOnInterest); if it is newer than what u remembers u fetches w's current
+//	                   advertisement and the reply goes through the real advertDataHandler / ribUpdate
+//	                                                         => <dump of u> ann=ok | skip
+//	snap <u> <w>       same announcement, but the reply (w's advertisement as of now) stays in flight
+//	                                                         => <dump of u> started=<0|1> ann=ok | skip
+//	reply <u> <w> <i|last>  the reply of the i-th fetch started by `snap u w` reaches u's advertDataHandler
+//	                   (late, duplicated, out of order, after the neighbour was removed: must be ignored
+//	                   unless it carries the latest announced number)   => <dump of u> ann=ok | skip
+//	fetchrace <u> <w>  advertDataHandler stores w's advertisement, the dead sweep removes w, then the
+//	                   pending ribUpdate runs on the removed neighbour state => <dump of u> ann=ok | skip
 //	dead <u> <w>       u's dead-neighbor check removes w     => <dump of u> | skip
 //	sweep <u> <w1,w2,..> ONE dead-neighbor check of u finds all of them dead => <dump of u> | skip
 //	check              dump of every router                  => r0 <dump> ; r1 <dump> ; ...
@@ -21,6 +30,7 @@ import (
 	"testing"
 	"testing/synctest"
 
+	"github.com/named-data/ndnd/dv/tlv"
 	enc "github.com/named-data/ndnd/std/encoding"
 
 	"verif/harness/c18/dvsim"
@@ -206,6 +216,69 @@ func (h *hgen) randomFetches(k int) {
 	}
 }
 
+// replies to advertisement fetches arrive late, duplicated and out of order on one link while the
+// neighbour's advertisement changes in between
+func (h *hgen) reorder() {
+	// a link a->b whose far end b has another neighbour y: losing / regaining b-y changes b's advertisement
+	var cands [][3]int
+	for _, e := range h.t.directed() {
+		for _, o := range h.incident(e.b) {
+			if o.b != e.a {
+				cands = append(cands, [3]int{e.a, e.b, o.b})
+			}
+		}
+	}
+	if len(cands) == 0 {
+		return
+	}
+	c := cands[h.r.Intn(len(cands))]
+	a, b, y := c[0], c[1], c[2]
+	h.g.Stat("reorder-episode")
+	change := func(down bool) {
+		if down {
+			h.g.Op("unlink %d %d", b, y)
+			h.g.Op("dead %d %d", b, y)
+			h.g.Op("dead %d %d", y, b)
+		} else {
+			h.g.Op("link %d %d", b, y)
+			h.g.Op("fetch %d %d", b, y)
+			h.g.Op("fetch %d %d", y, b)
+		}
+		if h.r.Chance(1, 2) {
+			h.randomFetches(h.r.Range(0, h.t.n))
+		}
+	}
+	h.t.adj[b][y], h.t.adj[y][b] = false, false
+	change(true)
+	h.g.Op("snap %d %d", a, b)
+	if h.r.Chance(1, 3) {
+		h.g.Op("reply %d %d last", a, b)
+	}
+	h.t.adj[b][y], h.t.adj[y][b] = true, true
+	change(false)
+	h.g.Op("snap %d %d", a, b)
+	if h.r.Chance(1, 3) {
+		h.t.adj[b][y], h.t.adj[y][b] = false, false
+		change(true)
+		h.g.Op("snap %d %d", a, b)
+	}
+	// deliveries in any order, with duplicates; the reply to the latest fetch arrives at some point
+	order := []string{"last"}
+	for i := 0; i < 3; i++ {
+		if h.r.Chance(2, 3) {
+			order = append(order, fmt.Sprint(i))
+		}
+	}
+	if h.r.Chance(1, 2) {
+		order = append(order, "0")
+	}
+	for _, i := range shuffled(h.r, len(order)) {
+		h.g.Op("reply %d %d %s", a, b, order[i])
+		h.g.Stat("reply")
+	}
+	h.g.Op("reply %d %d last", a, b)
+}
+
 func (h *hgen) converge() {
 	h.rounds(boundRounds)
 	h.g.Op("check")
@@ -254,8 +327,14 @@ func (h *hgen) lose(es []edge) {
 	for _, i := range p {
 		h.randomFetches(h.r.Intn(4))
 		if i < len(single) {
-			h.g.Op("dead %d %d", single[i].a, single[i].b)
-			h.g.Stat("dead")
+			if h.r.Chance(1, 4) {
+				// an advertisement of the lost neighbour is still being processed when the sweep removes it
+				h.g.Op("fetchrace %d %d", single[i].a, single[i].b)
+				h.g.Stat("fetchrace")
+			} else {
+				h.g.Op("dead %d %d", single[i].a, single[i].b)
+				h.g.Stat("dead")
+			}
 		} else {
 			sw := sweeps[i-len(single)]
 			parts := make([]string, len(sw.ws))
@@ -301,6 +380,10 @@ func (h *hgen) history(t *topo, cycles int) {
 		h.randomFetches(h.r.Intn(3 * t.n))
 	}
 	h.converge()
+	if h.r.Chance(1, 2) {
+		h.reorder()
+		h.converge()
+	}
 	for c := 0; c < cycles; c++ {
 		var lost []edge
 		es := t.edges()
@@ -377,10 +460,36 @@ func gen(g *common.Gen) {
 
 // ---------------------------------------------------------------- executor (real code)
 
+type flight struct {
+	p       dvsim.Pending
+	content []byte
+}
+
 var (
-	sim  *dvsim.Sim
-	link [][]bool
+	sim     *dvsim.Sim
+	link    [][]bool
+	ver     []uint64            // advertisement number of every router (advances when its advertisement changes)
+	lastAdv []string            // last advertisement text of every router
+	lastSeq []uint64            // the router's own advertSyncSeq when lastAdv was taken
+	flights map[[2]int][]flight // replies in flight per (u, w)
 )
+
+func advText(u int) string { return strings.SplitN(sim.DumpRib(u), " ", 2)[0] }
+
+// after an operation at router u: its advertisement number advances iff the advertisement changed;
+// the router itself must then have advanced its own sequence number (dv/SPEC.md)
+func touched(u int) string {
+	now, seq := advText(u), sim.Nodes[u].R.VerifAdvertSeq()
+	ann := "ok"
+	if now != lastAdv[u] {
+		ver[u]++
+		if seq == lastSeq[u] {
+			ann = "MISSING"
+		}
+	}
+	lastAdv[u], lastSeq[u] = now, seq
+	return " ann=" + ann
+}
 
 func valid(f []string, k int) ([]int, bool) {
 	if sim == nil || len(f) != k+1 {
@@ -405,8 +514,11 @@ func exec(op string) string {
 		n := common.Atoi(f[1])
 		sim = dvsim.NewSim(n)
 		link = make([][]bool, n)
+		ver, lastAdv, lastSeq = make([]uint64, n), make([]string, n), make([]uint64, n)
+		flights = map[[2]int][]flight{}
 		for i := range link {
 			link[i] = make([]bool, n)
+			ver[i], lastAdv[i], lastSeq[i] = 1, advText(i), sim.Nodes[i].R.VerifAdvertSeq()
 		}
 		var sb strings.Builder
 		sb.WriteString("ok")
@@ -427,8 +539,60 @@ func exec(op string) string {
 		if !ok || a[0] == a[1] || !link[a[0]][a[1]] {
 			return "skip"
 		}
-		sim.Fetch(a[0], a[1])
-		return sim.DumpRib(a[0])
+		u, w := a[0], a[1]
+		for _, p := range sim.SyncInterest(u, sim.Nodes[w].Name, dvsim.FaceOf(w), true, ver[w]) {
+			sim.ReplyAdvert(p, sim.AdvertWire(w)) // answered at once with w's current advertisement
+		}
+		return sim.DumpRib(u) + touched(u)
+	case "snap":
+		a, ok := valid(f, 2)
+		if !ok || a[0] == a[1] || !link[a[0]][a[1]] {
+			return "skip"
+		}
+		u, w := a[0], a[1]
+		started := 0
+		for _, p := range sim.SyncInterest(u, sim.Nodes[w].Name, dvsim.FaceOf(w), true, ver[w]) {
+			flights[[2]int{u, w}] = append(flights[[2]int{u, w}], flight{p, sim.AdvertWire(w)})
+			started = 1
+		}
+		return sim.DumpRib(u) + fmt.Sprintf(" started=%d", started) + touched(u)
+	case "reply":
+		if len(f) != 4 {
+			return "skip"
+		}
+		a, ok := valid(f[:3], 2)
+		if !ok {
+			return "skip"
+		}
+		fl := flights[[2]int{a[0], a[1]}]
+		i := len(fl) - 1
+		if f[3] != "last" {
+			i = common.Atoi(f[3])
+		}
+		if i < 0 || i >= len(fl) {
+			return "skip"
+		}
+		sim.ReplyAdvert(fl[i].p, fl[i].content)
+		return sim.DumpRib(a[0]) + touched(a[0])
+	case "fetchrace":
+		a, ok := valid(f, 2)
+		if !ok || a[0] == a[1] {
+			return "skip"
+		}
+		u, w := a[0], a[1]
+		ns := sim.Nodes[u].R.VerifNeighbors().Get(sim.Nodes[w].Name)
+		if ns == nil {
+			return "skip"
+		}
+		adv, err := tlv.ParseAdvertisement(enc.NewBufferReader(sim.AdvertWire(w)), false)
+		if err != nil {
+			panic("harness: advertisement does not parse")
+		}
+		ns.Advert = adv                       // advertDataHandler: ns.Advert = advert; go dv.ribUpdate(ns)
+		sim.Dead(u, sim.Nodes[w].Name)        // the dead sweep gets the router mutex first
+		sim.Nodes[u].R.VerifRibUpdate(ns)     // the pending ribUpdate runs on the removed state
+		sim.Settle()
+		return sim.DumpRib(u) + touched(u)
 	case "dead":
 		a, ok := valid(f, 2)
 		if !ok || a[0] == a[1] {
@@ -437,7 +601,7 @@ func exec(op string) string {
 		if !sim.Dead(a[0], sim.Nodes[a[1]].Name) {
 			return "skip"
 		}
-		return sim.DumpRib(a[0])
+		return sim.DumpRib(a[0]) + touched(a[0])
 	case "sweep":
 		if sim == nil || len(f) != 3 {
 			return "skip"
@@ -457,7 +621,7 @@ func exec(op string) string {
 		if sim.DeadMany(u, names) == 0 {
 			return "skip"
 		}
-		return sim.DumpRib(u)
+		return sim.DumpRib(u) + touched(u)
 	case "check":
 		if sim == nil {
 			return "skip"
